@@ -100,6 +100,7 @@ package xmpp
 //@ event SessionOpened(s Ref)
 //@ event SMEnabledOK(s Ref)
 //@ event HandlePacket(h Iface, s Iface, p Iface)
+//@ event AckProcessed(h Int, q Ref)
 //@ event Send(s Iface, p Iface)
 //@ event SendRaw(s Iface, stz Str)
 //@ event SendAttrs(typ Str, id Str, from Str, to Str, reason Str)
@@ -302,6 +303,7 @@ package xmpp
 // stanzas have a sequence number <= h (a prefix, because sequence numbers increase).
 //@ pred ackedPrefix(q, h, k) := 0 <= k && k <= len(q.Uslice) && forall(i, 0, k, q.Uslice[i].Id <= h) && forall(i, k, len(q.Uslice), q.Uslice[i].Id > h)
 //@ func xmpp.SendMissingStz(lastSent, s, uaq) (err)
+//@   emit AckProcessed(lastSent, uaq)
 //@   requires s != nil
 //@   requires wfQueue(uaq) && (uaq != nil ==> uaq == senderQueue(s))
 //@   ensures [C05.nilqueue] uaq == nil ==> err == nil && count(Send) == old(count(Send)) && count(SendRaw) == old(count(SendRaw))
@@ -330,6 +332,7 @@ package xmpp
 //@   ensures [C06.iqerr] plainPacket(p) && old(noRoute(r, p)) && old(isIQRequest(p)) ==> count(HandlePacket) == old(count(HandlePacket)) && count(Send) == old(count(Send)) + 1 && last(Send, 0) == s && last(Send, 1) == p && count(SendAttrs) == old(count(SendAttrs)) + 1 && last(SendAttrs, 0) == "error" && last(SendAttrs, 1) == old(pkId(p)) && last(SendAttrs, 2) == old(pkTo(p)) && last(SendAttrs, 3) == old(pkFrom(p)) && last(SendAttrs, 4) == "feature-not-implemented"
 //@   ensures [C06.once.answer] typeof(p) == stanza.SMAnswer && !old(noRoute(r, p)) ==> count(HandlePacket) == old(count(HandlePacket)) + 1 && last(HandlePacket, 1) == s && last(HandlePacket, 2) == p && exists(i, 0, old(len(r.routes)), old(firstAt(r, p, i)) && last(HandlePacket, 0) == old(r.routes[i].handler))
 //@   ensures [C06.quiet.answer] typeof(p) == stanza.SMAnswer && old(noRoute(r, p)) ==> count(HandlePacket) == old(count(HandlePacket))
+//@   ensures [C10.route.ack] (typeof(p) == stanza.SMAnswer && typeof(s) == *Client) ==> count(AckProcessed) == old(count(AckProcessed)) + 1 && last(AckProcessed, 1) == s.(*Client).Session.SMState.UnAckQueue
 //@   ensures [C06.quiet] plainPacket(p) && old(noRoute(r, p)) && !old(isIQRequest(p)) ==> count(HandlePacket) == old(count(HandlePacket)) && count(Send) == old(count(Send)) && count(SendRaw) == old(count(SendRaw))
 //@   requires wfQueue(senderQueue(s))
 //@   ensures wfQueue(senderQueue(s)) && backingOK(senderQueue(s)) && r.IQResultRoutes == old(r.IQResultRoutes)
@@ -345,7 +348,7 @@ package xmpp
 //@   assigns locked(addr(r.IQResultRouteLock)), rlocked(addr(r.IQResultRouteLock))
 //@   assigns senderQueue(s).Uslice, p.(*stanza.IQ).Type, p.(*stanza.IQ).From, p.(*stanza.IQ).To, p.(*stanza.IQ).Error
 //@   elems r.IQResultRoutes
-//@   emits HandlePacket, Send, SendAttrs, SendRaw, Write, ChanSend, ChanSend_IQ, Close, MapGet_IQResultRoutes, MapDel_IQResultRoutes
+//@   emits HandlePacket, Send, SendAttrs, SendRaw, Write, ChanSend, ChanSend_IQ, Close, MapGet_IQResultRoutes, MapDel_IQResultRoutes, AckProcessed
 //@   at call SendMissingStz assert [C10.route.h] typeof(p) == stanza.SMAnswer && typeof(s) == *Client && ($lastSent == p.(stanza.SMAnswer).H || p.(stanza.SMAnswer).H >= 9223372036854775808) && $uaq == s.(*Client).Session.SMState.UnAckQueue && $s == s
 
 // ---------------------------------------------------------------------------
@@ -563,7 +566,7 @@ package xmpp
 //@   ensures [C12.event] (!(newSpawns() + 1 == newReads() && typeof(last(PacketRead)) == stanza.StreamClosePacket) && c.Handler != nil) ==> count(EventHandler) == old(count(EventHandler)) + 1 && last(EventHandler).State.state == ite((count(StreamErrRead) > old(count(StreamErrRead))), StateStreamError, StateDisconnected) && (!(count(StreamErrRead) > old(count(StreamErrRead))) ==> last(EventHandler).SMState == c.Session.SMState && atlast(ErrorHandler) < atlast(EventHandler))
 //@   assigns c.Session.SMState.Inbound, c.Session.SMState.UnAckQueue.Uslice, c.CurrentState.state
 //@   elems c.Session.SMState.UnAckQueue.Uslice, c.router.IQResultRoutes
-//@   emits PacketRead, StanzaRead, AckReqRead, StreamErrRead, AnswerSent, Send, SendAttrs, Write, Spawn_route, Spawn, ErrorHandler, EventHandler, Close, HandlePacket, SendRaw, ChanSend, ChanSend_IQ, MapGet_IQResultRoutes, MapDel_IQResultRoutes, DecodeFailed, DecodedElement, TokenRead, Marshaled, Closed, Routed
+//@   emits PacketRead, StanzaRead, AckReqRead, StreamErrRead, AnswerSent, Send, SendAttrs, Write, Spawn_route, Spawn, ErrorHandler, EventHandler, Close, HandlePacket, SendRaw, ChanSend, ChanSend_IQ, MapGet_IQResultRoutes, MapDel_IQResultRoutes, DecodeFailed, DecodedElement, TokenRead, Marshaled, Closed, Routed, AckProcessed
 //@   assigns locked(addr(c.router.IQResultRouteLock)), rlocked(addr(c.router.IQResultRouteLock))
 //@   at call Send assert [C09.h] typeof($packet) == stanza.SMAnswer && $packet.(stanza.SMAnswer).H == c.Session.SMState.Inbound
 //@   loop 1:
@@ -630,7 +633,7 @@ package xmpp
 //@   emit ResumedOK(s) when ok
 //@   ensures [C11.resume.never]   (!old(stanza.smOffered(s.Features)) || old(s.SMState.Id) == "") ==> !ok && count(Write) == old(count(Write)) && count(PacketRead) == old(count(PacketRead)) && smStateKept(s) && s.err == old(s.err)
 //@   ensures [C11.resume.once]    count(Write) <= old(count(Write)) + 1 && count(PacketRead) <= old(count(PacketRead)) + 1
-//@   ensures [C11.resume.ok]      ok ==> count(Write) == old(count(Write)) + 1 && newReadIs(stanza.SMResumed) && last(PacketRead).(stanza.SMResumed).PrevId == old(s.SMState.Id) && atlast(Write) < atlast(PacketRead) && smStateKept(s) && s.err == nil
+//@   ensures [C11.resume.ok,C09.resume.kept]      ok ==> count(Write) == old(count(Write)) + 1 && newReadIs(stanza.SMResumed) && last(PacketRead).(stanza.SMResumed).PrevId == old(s.SMState.Id) && atlast(Write) < atlast(PacketRead) && smStateKept(s) && s.err == nil
 //@   ensures [C11.resume.stale]   (!ok && count(Write) == old(count(Write)) + 1 && last(Write, 2)) ==> smStateZero(s)
 //@   ensures [C11.resume.refused] (!ok && newReadIs(stanza.SMFailed)) ==> s.err == nil
 //@   ensures [C11.resume.other]   (!ok && count(PacketRead) == old(count(PacketRead)) + 1 && typeof(last(PacketRead)) != stanza.SMFailed) ==> s.err != nil
@@ -694,7 +697,7 @@ package xmpp
 //@   ensures [C05.comp.error] !(newReads() > 0 && typeof(last(PacketRead)) == stanza.StreamClosePacket && count(Routed) - old(count(Routed)) + 1 == newReads() + (count(StreamErrRead) - old(count(StreamErrRead)))) ==> count(ErrorHandler) - old(count(ErrorHandler)) == count(StreamErrRead) - old(count(StreamErrRead)) + 1 && c.CurrentState.state == StateDisconnected
 //@   assigns c.CurrentState.state
 //@   elems c.router.IQResultRoutes
-//@   emits PacketRead, StanzaRead, AckReqRead, StreamErrRead, TokenRead, Routed, HandlePacket, Send, SendAttrs, SendRaw, Write, ChanSend, Close, ErrorHandler, EventHandler, ChanSend_IQ, MapGet_IQResultRoutes, MapDel_IQResultRoutes, DecodeFailed, DecodedElement, Closed
+//@   emits PacketRead, StanzaRead, AckReqRead, StreamErrRead, TokenRead, Routed, HandlePacket, Send, SendAttrs, SendRaw, Write, ChanSend, Close, ErrorHandler, EventHandler, ChanSend_IQ, MapGet_IQResultRoutes, MapDel_IQResultRoutes, DecodeFailed, DecodedElement, Closed, AckProcessed
 //@   assigns locked(addr(c.router.IQResultRouteLock)), rlocked(addr(c.router.IQResultRouteLock))
 //@   loop 1:
 //@     invariant compOK(c) && c.router == old(c.router) && c.router.IQResultRoutes == old(c.router.IQResultRoutes) && c.Handler == old(c.Handler)
@@ -875,6 +878,7 @@ package xmpp
 //@   ensures c.transport == old(c.transport) && c.config == old(c.config) && c.Handler == old(c.Handler) && c.router == old(c.router) && c.ErrorHandler == old(c.ErrorHandler) && connectOK(c)
 //@   assigns c.Session, c.Session.err, c.Session.Features, c.Session.TlsEnabled, c.Session.StreamId, c.Session.SMState, c.Session.BindJid, c.Session.lastPacketId, c.config.StreamManagementEnable, c.CurrentState.state
 //@   emits Write, Decoded, DecodedElement, StartTLSCalled, SecureAsked, PacketRead, StanzaRead, AckReqRead, StreamErrRead, TokenRead, Marshaled, StreamStarted, TlsDone, AuthConfirmed, Restarted, ResumedOK, Bound, SessionOpened, SMEnabledOK, Connected, EventHandler, Spawn, Spawn_connect$1, Closed, DecodeFailed
+//@   at call NewSession assert [C11.connect.fresh] $state.Id == "" && $state.Inbound == 0 && $state.UnAckQueue == nil
 //
 // NewClient: the domain the server's certificate will be checked against (TransportConfiguration.Domain) is the one
 // the application configured or else the domain of the JID - never the host the connection happens to go to.
@@ -906,6 +910,7 @@ package xmpp
 //@   ensures [C03.Connect.fail,C04.Connect.fail] c.CurrentState.state != StateSessionEstablished && old(c.CurrentState.state) != StateSessionEstablished ==> err != nil && count(Spawn_recv) == old(count(Spawn_recv)) && count(Spawn_keepalive) == old(count(Spawn_keepalive))
 //@   ensures [C13.Connect.loops] err == nil ==> count(Spawn_recv) == old(count(Spawn_recv)) + 1 && last(Spawn_recv, 0) == c && count(Spawn_keepalive) == old(count(Spawn_keepalive)) + 1 && last(Spawn_keepalive, 0) == c.transport && last(Spawn_keepalive, 1) == c.config.KeepaliveInterval && last(Spawn_keepalive, 2) == last(Spawn_recv, 1)
 //@   ensures [C18.Connect.keepalive] err == nil ==> last(Spawn_keepalive, 0) == c.transport && last(Spawn_keepalive, 1) == c.config.KeepaliveInterval && last(Spawn_keepalive, 2) == last(Spawn_recv, 1) && fresh(last(Spawn_recv, 1))
+//@   ensures [C18.Connect.paired] count(Spawn_keepalive) - old(count(Spawn_keepalive)) == count(Spawn_recv) - old(count(Spawn_recv)) && (count(Spawn_keepalive) > old(count(Spawn_keepalive)) ==> last(Spawn_keepalive, 2) == last(Spawn_recv, 1) && atlast(Spawn_keepalive) < atlast(Spawn_recv) && count(PostConnectHook) + count(Write) >= 0)
 //@   ensures [C13.Connect.hook]  (err == nil && old(c.PostConnectHook) != nil) ==> count(PostConnectHook) == old(count(PostConnectHook)) + 1
 //@   ensures [C13.Connect.noloss] forall(j, old(count(EventHandler)), count(EventHandler), arg(EventHandler, j, 0).State.state != StateDisconnected && arg(EventHandler, j, 0).State.state != StateStreamError)
 //@   assigns c.Session, c.Session.err, c.Session.Features, c.Session.TlsEnabled, c.Session.StreamId, c.Session.SMState, c.Session.BindJid, c.Session.lastPacketId, c.config.StreamManagementEnable, c.CurrentState.state
@@ -916,6 +921,7 @@ package xmpp
 //@   requires connectOK(c)
 //@   ensures [C13.Resume.loops] err == nil ==> count(Spawn_recv) == old(count(Spawn_recv)) + 1 && last(Spawn_recv, 0) == c && count(Spawn_keepalive) == old(count(Spawn_keepalive)) + 1 && last(Spawn_keepalive, 0) == c.transport && last(Spawn_keepalive, 2) == last(Spawn_recv, 1)
 //@   ensures [C18.Resume.keepalive] err == nil ==> last(Spawn_keepalive, 0) == c.transport && last(Spawn_keepalive, 1) == c.config.KeepaliveInterval && last(Spawn_keepalive, 2) == last(Spawn_recv, 1) && fresh(last(Spawn_recv, 1))
+//@   ensures [C18.Resume.paired] count(Spawn_keepalive) - old(count(Spawn_keepalive)) == count(Spawn_recv) - old(count(Spawn_recv)) && (count(Spawn_keepalive) > old(count(Spawn_keepalive)) ==> last(Spawn_keepalive, 2) == last(Spawn_recv, 1))
 //@   ensures [C13.Resume.hook]  (err == nil && old(c.PostResumeHook) != nil) ==> count(PostResumeHook) == old(count(PostResumeHook)) + 1
 //@   ensures [C13.Resume.fail]  c.CurrentState.state != StateSessionEstablished ==> err != nil
 //@   ensures [C13.Resume.noloss] forall(j, old(count(EventHandler)), count(EventHandler), arg(EventHandler, j, 0).State.state != StateDisconnected && arg(EventHandler, j, 0).State.state != StateStreamError)
